@@ -144,15 +144,18 @@ def promotion_shape(c, wrap, length) -> bool:
     target = ring.normalise(ring.parts_of(c.location))
     if c.kind == K.CHEMICAL_HYBRID:
         # a hybrid's own group: the members sharing defining genes plus those with cores inside their core span
-        hub = [m for comp in comps if len(comp) > 1 for m in comp]
-        if hub:
+        # (each shared-gene component on its own: two of them with identical coordinates are merged by promotion)
+        groups = []
+        for hub in [comp for comp in comps if len(comp) > 1]:
             ivs = [iv for m in hub for iv in ring.span(m.core_location, wrap)]
             if wrap:
                 cover = ring.arc_to_intervals(*ring.cover_candidates(ivs, length)[0], length)
             else:
                 cover = [(min(s for s, _ in ivs), max(e for _, e in ivs))]
-            comps = [hub + [m for m in members if not any(m is h for h in hub)
-                            and ring.covers(cover, ring.parts_of(m.core_location))]]
+            groups.append(hub + [m for comp in comps if len(comp) == 1 for m in comp
+                                 if ring.covers(cover, ring.parts_of(m.core_location))])
+        if groups:
+            comps = groups
     for comp in comps:
         if len(comp) == len(members) or len(comp) < 2:
             continue
